@@ -96,17 +96,10 @@ def judge(ctx, case):
         pts += [(p, "near") for p in probes.near_boundary_points(curves, us)]
         pts += [(p, "sagitta") for p in probes.sagitta_points(curves, us=us)]
     jordans = list(shape.jordans)
-    # a rational query point on a rational *curved* shape costs 5-20 s in the
-    # library (exact Newton iterations): one such query per case, thorough only
-    slow_budget = [1 if ctx.tier == "thorough" else 0]
     for i, (p, tag) in enumerate(pts):
         m = mode if tag != "far" else 0
         if curved and m in (1, 2):
-            if slow_budget[0] > 0 and tag == "uniform":
-                slow_budget[0] -= 1
-                ctx.count("rational-point-on-curved-shape")
-            else:
-                m = 0
+            ctx.count("rational-point-on-curved-shape")
         if "point" in case:
             arg = q = tuple(p)  # replay: the recorded point, verbatim
         else:
@@ -148,7 +141,7 @@ def judge(ctx, case):
     for (b, ci, si, t) in bps:
         seg = curves[ci][si]
         iscurved = len(seg) > 2
-        exact = all(rg.is_exact(v) for v in b) and not curved
+        exact = all(rg.is_exact(v) for v in b)
         arg = tuple(b) if exact else (float(b[0]), float(b[1]))
         sub = dict(spec=spec, boundary_point=list(arg), curve=ci, segment=si, t=t)
         ctx.evaluated(sub, True, ["kind:" + kind, "boundary-curved" if iscurved else "boundary-straight"])
